@@ -21,4 +21,4 @@ For each change k in (1,2) deliver in {out}/k/ :
  - patch.diff : `git -C {wt} diff` of that change alone (relative to the worktree HEAD), applying cleanly with `git apply`,
  - demo.py : a small self-contained program (uses only the project's public/obvious API; run as `PYTHONPATH=<root>/src NUMBA_DISABLE_JIT=1 /venv/bin/python demo.py`) that exits 0 on the unmodified tree and exits non-zero (assertion failing, with a message showing expected vs observed) on the changed tree; it must demonstrate the violation of the PROPERTY (not merely 'the code differs'),
  - meta.json : {{"property": "{pid}", "title": short title, "what_changed": ..., "why_it_breaks_the_property": ..., "needs_to_manifest": ..., "tests_run": the pytest command and the pass/fail summary before and after, "files": [...]}}.
-Verify everything yourself: demo passes on clean, fails on changed; test-suite outcome identical. Leave the worktree CLEAN (git checkout -- .) at the end; the deliverables live only in {out}. If after a serious attempt you can only produce one good change, deliver one and say so. Final message: a 10-line summary of the two changes.""")
+Verify everything yourself: demo passes on clean, fails on changed; test-suite outcome identical. NEVER use `git stash` (the stash is shared between worktrees; other agents work in sibling worktrees) - keep your changes as patch files instead. Leave the worktree CLEAN (git checkout -- .) at the end; the deliverables live only in {out}. If after a serious attempt you can only produce one good change, deliver one and say so. Final message: a 10-line summary of the two changes.""")
